@@ -203,7 +203,9 @@ POOL_CLASSES = _pool_classes()
 REGEX_POOL = ["'[a-z'", "'x*'", "'(a)|(b)'", "'\\p{L}+'", "'\\P{IsBasicLatin}'", "'[a-z-[aeiou]]'", "'(a|b)*c{2,3}?'", "'^.*$'",
               "'\\1'", "'(?i)a'", "'a{99999}'", "'a{99999999999}'", "'a{2,1}'", "'(a*)*b'", "'\\p{IsNoSuchBlock}'", "'a{'", "'}'", "'{}'", "'a{,3}'", "'(a'",
               "'a)'", "'[]'", "'[^]'", "'\\'", "'a|'", "'(())'", "'\\p{Lu}{2}'", "'x{0}'", "'.'", "''", "'\\s+'", "'\\i\\c*'",
-              "'[\\w-[\\d]]'", "'a{1}{2}'", "'(a)\\2'", "'\\n'", "'$'", "'^'"]
+              "'[\\w-[\\d]]'", "'a{1}{2}'", "'(a)\\2'", "'\\n'", "'$'", "'^'",
+              # patterns that are empty or match the empty string only once the 'x' flag has removed their whitespace
+              "' '", "'b *'", "'  \t'", "' a '", "'a | '", "' | a'", "'( )'", "'a *'", "' ?'", "'[ ]'", "'\\ '", "'a\n'"]
 FLAG_POOL = ["''", "'i'", "'s'", "'m'", "'x'", "'q'", "'imsxq'", "'j'", "'ii'", "' '", "'I'"]
 REPLACEMENT_POOL = ["''", "'$1'", "'$0'", "'\\$'", "'$'", "'\\'", "'$9'", "'x'", "'\\\\'", "'$a'", "'$10'"]
 PICTURE_POOL = [a for a in ARG_POOL if a.startswith("'") and ('[' in a or '#' in a or '0' in a or a in ("'Ww'", "'w'", "'i'", "'A'", "'a'",
@@ -244,6 +246,25 @@ def format_source(rng):
     elif f == 'format-number' and rng.random() < 0.2:
         extra = ', %s' % rng.choice(["'nope'", '()', "'Q{u}f'"])
     return '%s(%s, %s%s)' % (f, value, pic, extra)
+
+
+DT_VALUES = ['xs:date("9999-12-31")', 'xs:date("0001-01-01")', 'xs:date("-0001-12-31+14:00")', 'xs:dateTime("9999-12-31T23:59:59.999Z")',
+             'xs:dateTime("0001-01-01T00:00:00Z")', 'xs:date("2000-02-29")', 'xs:time("23:59:59")', 'xs:time("00:00:00-14:00")',
+             'xs:dateTime("2000-01-31T12:00:00+14:00")', 'xs:date("9999-01-31-14:00")', 'xs:gYear("9999")', 'xs:gYearMonth("9999-12")']
+DUR_VALUES = ['xs:yearMonthDuration("P1M")', 'xs:yearMonthDuration("-P1M")', 'xs:yearMonthDuration("P1Y")', 'xs:yearMonthDuration("-P10000Y")',
+              'xs:yearMonthDuration("P99999999Y")', 'xs:dayTimeDuration("P1D")', 'xs:dayTimeDuration("-P1D")', 'xs:dayTimeDuration("PT1S")',
+              'xs:dayTimeDuration("P9999999D")', 'xs:dayTimeDuration("-PT0.001S")', 'xs:duration("P1Y1D")', 'xs:dayTimeDuration("PT14H")']
+DT_FORMS = ['%d + %u', '%d - %u', '%u + %d', '%d - %e', '%u * 2', '%u * 1e300', '%u div 0.5', '%u div %w', '%u div 1e-300', '%d lt %e',
+            '%d eq %e', 'max((%d, %e))', '%u + %w', '%u - %w', 'adjust-date-to-timezone(%d, %u)', 'adjust-dateTime-to-timezone(%d, %u)',
+            '%d + %u + %w', 'year-from-date(%d + %u)', 'string(%d - %u)', '(%d - %e) div %u', 'sum((%u, %w))', 'avg((%u, %w))', '%u * -1',
+            '%u idiv %w', '%d - %u - %u']
+
+
+def datearith_source(rng):
+    """Date/time and duration arithmetic at the limits of the value spaces."""
+    f = rng.choice(DT_FORMS)
+    return f.replace('%d', rng.choice(DT_VALUES)).replace('%e', rng.choice(DT_VALUES)).replace('%u', rng.choice(DUR_VALUES)) \
+        .replace('%w', rng.choice(DUR_VALUES))
 
 
 REGEX_INPUTS = ["'abracadabra'", "'a1b22c333'", "''", "'The cat sat'", "'a.b|c'", "'\n x \t'", "'é€😀'", "'aaa'", "'2000-01-01'"]
@@ -413,7 +434,9 @@ def opcall_source(rng, version='3.1'):
 
 
 def valid_source(rng):
-    k = rng.randrange(16)
+    k = rng.randrange(17)
+    if k == 16:
+        return datearith_source(rng)
     if k >= 14:
         return regex_source(rng)
     if k == 13:
@@ -478,10 +501,10 @@ def gen_case(rng, tier):
     if rng.random() < 0.2:
         # grid-focused history: one XPath 3.1 parser and only well-formed calls of one family (a value x picture, an
         # input x pattern x replacement x flags, a typed argument grid), so that the rare cell of a grid is reached
-        fam = rng.choice(['fmt', 'fmt', 'fmt', 'rx', 'fun', 'fun', 'op'])
+        fam = rng.choice(['fmt', 'fmt', 'fmt', 'rx', 'rx', 'fun', 'fun', 'op', 'dt', 'dt'])
         for _ in range(rng.randint(6, 24 if thorough else 14)):
             src = format_source(rng) if fam == 'fmt' else regex_source(rng) if fam == 'rx' else \
-                funcall_source(rng, '3.1') if fam == 'fun' else opcall_source(rng, '3.1')
+                funcall_source(rng, '3.1') if fam == 'fun' else datearith_source(rng) if fam == 'dt' else opcall_source(rng, '3.1')
             probes = sorted(rng.sample(range(len(PROBES)), 3))
             if rng.random() < 0.3:
                 ops.append({'op': 'parse', 'p': 0, 'src': src, 'kind': 'valid', 'probes': probes})
